@@ -1625,6 +1625,23 @@ impl ASN1Value {
                 if let Some(v) = find_tld_or_enum_value_by_name(identifier, e, tlds) {
                     *self = v;
                 }
+                // The referenced value may be a reference itself: follow the chain,
+                // visiting each top-level value at most once
+                let mut hops = 0;
+                while let Self::ElsewhereDeclaredValue {
+                    identifier: next,
+                    parent: None,
+                    ..
+                } = self
+                {
+                    match tlds.get(next) {
+                        Some(ToplevelDefinition::Value(v)) if hops < tlds.len() => {
+                            *self = v.value.clone();
+                            hops += 1;
+                        }
+                        _ => break,
+                    }
+                }
             }
             _ => {}
         }
